@@ -90,6 +90,7 @@ EXPECTED_PROBES = [
     "probe.page_eviction", "probe.page_cache_full", "probe.page_readahead_loaded", "probe.page_dirty_eviction_written_back",
     "probe.page_readahead_window_over_dirty_page", "probe.page_readahead_over_dirty_page_with_room", "probe.page_write_hit",
     "probe.page_flush_wrote", "probe.page_audit_completed", "probe.page_read_write_miss_same_page_behind_dirty_victim",
+    "probe.lower_tier_hit_while_write_in_flight",
 ]
 SHRINK_SKIP = ("family", "klass")
 
@@ -374,6 +375,8 @@ def run(sc):
     counters.update(w.counts)
     # refutation evidence for the DESIGN hypothesis "evict() returning None lets the cache exceed capacity"
     counters.setdefault("evict_returned_none_while_full", 0)
+    if fam == "mtc":
+        counters.setdefault("lower_tier_hit_after_put_backing_write_landed", 0)  # expected 0 on a correct put()
     if w.probes.get("probe.put_during_flush"):
         counters["fault.put_while_flush_in_flight"] = 1
     if w.probes.get("probe.read_overlapped_write_same_key"):
